@@ -28,7 +28,7 @@ ALL = [f"C{n:02d}" for n in range(1, 21)]
 
 
 def load(prop: str):
-    return importlib.import_module(prop.lower())
+    return common.load_property(prop)
 
 
 def setup() -> int:
